@@ -2,13 +2,21 @@
 """Regenerates /verif/MANIFEST.json from the table below (single source of truth for what is claimed)."""
 import json, os
 V = os.path.dirname(os.path.dirname(os.path.abspath(__file__)))
-TRUST = ("TLC 1.8.0 + CommunityModules Json/IOUtils; the C++ harness (records only, never judges); g++ 12 -O2 -march=native; "
+TRUST = ("TLC 1.8.0 + CommunityModules Json/IOUtils; the C++ harness (records only, never judges); g++ 12 -O2 with per-architecture minimal -m flags; "
          "one host micro-architecture executes all 20 x86 ISAs + emulated<128/256> + scalar overloads; NEON/SVE/RVV/WASM not executable")
 CHECKS = {
  "C01": dict(level="exploration", ref="6 C01", tech="TLA+ lane semantics (BvLane=IntLane model-checked exhaustively at W=8) + TLC trace validation of recorded xsimd results on all ISAs",
    text="TLC checks BvLane == IntLane (definitional two's-complement semantics) on every 8-bit operand pair, then judges every lane of traces recorded from the real kernels of 22 architectures + scalar overloads (Lattice^2 + random operands, all 8 integer types, every op incl. masked, fma family, divmod by characterisation) against that semantics. Sampled over operand values for 16/32/64-bit lanes, hence exploration."),
  "C07": dict(level="exploration", ref="6 C07", tech="TLA+ bit-vector lane semantics + TLC trace validation of recorded xsimd results on all ISAs",
    text="All 8-bit values x all counts (thorough: all 16-bit values), lattice+walking-bit+random values of wider lanes x every scalar count and independent per-lane counts, on 22 architectures + scalar overloads; every lane judged in TLC by LaneInt.IntRel (shift/rotate/bitwise semantics model-checked against IntLane at W=8)."),
+ "C03": dict(level="model_checking", ref="6 C03", tech="TLC model checking of the Boolean algebra/K_Count model + TLC trace validation of batch_bool/compare/select events from all ISAs",
+   text="Design level: TLC enumerates every mask of <=13 lanes and every mask pair of <=6 lanes and checks the laws tying mask/from_mask/count/all/any/none and the operators together, plus the transcription of xsimd's count() bit tricks. Conformance: every mask of n<=8 lanes (thorough 16) and every pair for n<=4 (thorough 8), manufactured three ways, for every (type, register width) of 22 architectures, and comparison/select lattices for all 10 types incl. NaN/+-0, judged by LaneBool/Xsimd.BoolOK in TLC."),
+ "C15": dict(level="model_checking", ref="6 C15", tech="TLC model checking of Cpuid/Dispatch specs (all 5.2M configurations) + trace validation of the real detector under an injected CPUID/XGETBV source and of generated dispatch instantiations",
+   text="Design level: TLC checks the transcribed decision table of supported_arch() against Avail (own bits + OS register state), monotonicity and no-VEX-without-OSXSAVE on the hardware-presentable configuration space (thorough: all 2^20 x 5; quick: factorised sub-space), and the dispatcher walk on all sub-lists of a 5-architecture universe. Conformance: the real detector runs under injected configurations through the XSIMD_VERIF hook (thorough: all 5.2M), noise in unread bits, cache histories, ~200 generated arch_list instantiations dispatched under >=20 injected availability sets; TLC judges each event."),
+ "C18": dict(level="model_checking", ref="6 C18", tech="TLC model checking of the allocator model + trace validation of real allocate/deallocate histories with the heap invariant checked in every replayed state",
+   text="Design level: TLC explores every allocator history of <=5 operations over a small address space (disjointness, alignment) and the transcription of get_alignment_offset on its whole small domain. Conformance: seeded random histories against the real aligned_allocator (one process per history, sizes incl. overflow and near SIZE_MAX, alignments 8..4096) replayed through Alloc.tla's actions with HeapInv as a TLC invariant; is_aligned/get_alignment_offset/max_size/operator== on exhaustive small domains."),
+ "C20": dict(level="model_checking", ref="6 C20", tech="TLC evaluation of the Geometry invariants on the specification's table and on the complete table dumped from the real headers per build flavour",
+   text="The space (architecture x element type x lane count) is finite and dumped completely from the real headers (C++17, C++11, emulated; thorough adds AVX2-only, SSE2-only, clang); TLC checks every record against Geometry.tla (size*sizeof = register width, bool/complex lane counts, alignment, inheritance chain vs best-first order, arch_list alignment, make_sized_batch, traits)."),
 }
 NOT_YET = {}
 props = [json.loads(l) for l in open(os.path.join(V, "properties.jsonl"))]
@@ -28,7 +36,7 @@ for p in props:
 m = dict(version=1, setup_cmd="./setup.sh",
          hooks=dict(guard="XSIMD_VERIF", enable="harness translation units are compiled with -DXSIMD_VERIF=1 -I/repo/include (lib/vf.py)",
                     baseline_off_cmd="cmake --build /repo/_build -j16 && ctest --test-dir /repo/_build -j8 --timeout 900",
-                    source_commits=[], add_only=True),
+                    source_commits=['905149b'], add_only=True),
          engines=[dict(name="tlc", path="/opt/veriftools/tla/tla2tools.jar", serves_properties=sorted(CHECKS), kind_free_text="TLA+ model checker: design-level model checking of spec/*.tla and trace validation of ndjson traces recorded from the real code (spec/T_*.tla)")],
          checks=checks, not_applicable=na,
          notes="Model-based verification with an explicit TLA+ specification (spec/), TLC as the only judge; see DESIGN.md. Known findings and fixed defects: known_findings.json.")
